@@ -32,7 +32,9 @@ THEOREMS = [
     "C07_rejects_var_exact", "C07_rejects_lit_exact", "C07_no_other_leniency", "C07_lenient_witnesses",
     "C07_total_lit", "C07_total_args", "C07_total_vars", "C07_total_request",
     "C07_directive_args_sound", "C07_directive_args_total", "C07_skip_if_is_boolean",
-    "C07_usage_from_rule24", "C07_example",
+    "C07_usage_from_rule24", "C07_valid_schema_of_agree", "C07_subtype_agree",
+    "C07_usage_ok_from_validation", "C07_validated_request_sound", "C07_validated25_request_sound",
+    "C07_usage_ok_example", "C07_example",
 ]
 AXIOMS_OK = []
 RUN_MODULE = "Run.C07run Exec.CoerceModel"
